@@ -37,6 +37,7 @@ type Job struct {
 	From      int    `json:"from,omitempty"`      // resume: execute plan indices >= From only
 	Carry     string `json:"carry,omitempty"`     // resume: summary of the part already executed
 	RaceBin   string `json:"race_bin,omitempty"`  // -race build of the worker (C17 free mode)
+	MaxBad    int    `json:"max_bad,omitempty"`   // stop executing after this many violating runs (the rest is counted as skipped)
 }
 
 type ViolationRec struct {
@@ -222,6 +223,7 @@ func workerRun(t *testing.T, job Job, sum *Summary) {
 		maxMin = 6
 	}
 	mine := 0
+	badRuns := 0
 	var freeSpecs []RunSpec
 	var freeIdx []int
 	skip := map[int]bool{}
@@ -238,7 +240,7 @@ func workerRun(t *testing.T, job Job, sum *Summary) {
 			freeIdx = append(freeIdx, idx)
 			continue
 		}
-		if !deadline.IsZero() && time.Now().After(deadline) {
+		if !deadline.IsZero() && time.Now().After(deadline) || job.MaxBad > 0 && badRuns >= job.MaxBad {
 			sum.Skipped++
 			continue
 		}
@@ -273,6 +275,7 @@ func workerRun(t *testing.T, job Job, sum *Summary) {
 		if !v.Bad() {
 			continue
 		}
+		badRuns++
 		if rec, ok := bySig[v.Sig]; ok {
 			rec.Count++
 			continue
